@@ -139,7 +139,26 @@ def hermetic_execute(engine, prop, plan):
     launch.purge_batchie()
     if hasattr(engine, "reset_state"):
         engine.reset_state()
-    return engine.execute(prop, plan)
+    try:
+        return engine.execute(prop, plan)
+    except HarnessError:
+        raise
+    except Exception as e:
+        # An exception that ORIGINATES inside the code under test (innermost frame in the repository) while an
+        # engine was evaluating an oracle is a finding about that code, not a failure of the machinery: the
+        # engines guard the operations they expect to fail, so what arrives here is a crash on a path that works
+        # on the unchanged tree.  An exception whose innermost frame is harness code stays a harness error.
+        tb = traceback.extract_tb(e.__traceback__)
+        inner = tb[-1] if tb else None
+        root = repo_dir()
+        if inner is None or not os.path.abspath(inner.filename).startswith(root + os.sep):
+            raise
+        where = f"{os.path.relpath(inner.filename, root)}:{inner.name}"
+        sig = f"{prop}.crash-in-code-under-test/{type(e).__name__}@{where}"
+        v = kernel.Violation(prop, f"{prop}.crash-in-code-under-test", sig,
+                             f"{type(e).__name__}: {e} (raised in {where} while the check evaluated an oracle on inputs that work on the unchanged tree)")
+        st = kernel.RunStats()
+        return dict(digest=kernel.digest(["crash", sig]), violations=[v], stats=st.to_dict(), log_head=[["crash", sig]])
 
 
 def _worker_chunk(indices):
